@@ -120,6 +120,22 @@ CHECKS["C14"] = dict(
     technique="Coq proof (list induction, field algebra over Q) + residual/certificate correspondence by vm_compute",
     design="4/C14")
 
+CHECKS["C07"] = dict(
+    text="Theorems about models of the coupled solver's own logic: the flow-path validation accepts exactly the partitions "
+         "of the panel set; write-back pairs results with panels in declared order; in steady solid mode the heat entering a "
+         "tube's outer wall leaves through its inner wall (telescoping identity of the thermal model); along a path the "
+         "inlet condition, panel order and per-tube fluid/wall balance are exactly the zero-residual condition (C14); k "
+         "tubes of multiplier m and one tube of multiplier k*m have the same balance; the reset trigger fires exactly at "
+         "whole periods; the Picard loop returns only on its criterion (C17).  The check runs the real coupled solver on "
+         "small receivers and evaluates inlet, order, energy consistency (with the proved half-node factor), multiplier "
+         "merge, initial condition and cycle reset.",
+    note="partial: the energy clause combines two proved identities through the coupled fixed point; that combination and the "
+         "factor (1+dr/2ro)/(1-dr/2ri) are validated on the implementation.  Two known findings (off-mid-height slices, "
+         "mixed wall grids in one panel).  Picard convergence is not claimed.  Film coefficient independent of temperature in "
+         "the energy oracle.",
+    technique="Coq proof (list/set lemmas, telescoping, field algebra) + correspondence of validation/trigger + coupled-solve oracles",
+    design="4/C07")
+
 NOT_YET = {}
 
 def main():
